@@ -545,6 +545,22 @@ def t_sum(rng, gid, configured=True):
             'depth': 0, 'debug': bool(cfg.get('debug'))}
 
 
+def t_integral(rng, gid, configured=True):
+    """IntegralGrader cannot integrate here (scipy is absent) but it can be constructed and
+    called: everything up to the quadrature runs, and the call must fail cleanly."""
+    cfg = {'answers': {'lower': '0', 'upper': pick(rng, ['1', 'pi', 'infty']),
+                       'integrand': pick(rng, ['x', 'x^2', 'exp(-x)']), 'integration_variable': 'x'}}
+    common_opts(rng, cfg, item=False)
+    a = cfg['answers']
+    full = [a['lower'], a['upper'], a['integrand'], a['integration_variable']]
+    pal = {'right': [full, [full[0], full[1], full[2].replace('x', 't'), 't']],
+           'wrong': [[full[0], '2'] + full[2:]],
+           'malformed': [full[:3], [''] + full[1:], full[:2] + ['1/'] + full[3:], ['i'] + full[1:]]}
+    return {'bp': {'id': gid, 'cls': 'IntegralGrader', 'cfg': cfg}, 'configured': True, 'kind': 'list',
+            'n': 4, 'pal': pal, 'expects': {'valid': [], 'invalid': []}, 'targets': [], 'depth': 0,
+            'debug': bool(cfg.get('debug')), 'budget_all': True}
+
+
 def t_list(rng, gid, shared=None):
     """ListGrader: ordered/unordered, single or several subgraders, optional grouping with nesting."""
     cfg = {}
@@ -662,7 +678,7 @@ def shared_sub(rng, sid):
 TEMPLATES = {
     'string': t_string, 'formula': t_formula, 'numerical': t_numerical, 'matrix': t_matrix,
     'simitem': t_simitem, 'singlelist': t_singlelist, 'interval': t_interval, 'sum': t_sum,
-    'list': t_list,
+    'list': t_list, 'integral': t_integral,
 }
 
 WRONG_KIND_TEXT = [5, None, 3.5, {'__bytes__': 'cat'}, ['cat'], ['a', 'b'], [], True, {'__tuple__': ['a']}]
